@@ -214,7 +214,7 @@ func (cc *codecCtx) flattenKeySpace(m *ir.Message, seg string) (childField *ir.F
 		}
 		rest := strings.TrimPrefix(seg, prefix)
 		for _, cf := range c.Fields {
-			if rest == ir.JSONName(cf.Name) {
+			if rest == cf.JSON() {
 				return cf, "camel", true
 			}
 			if rest == cf.Name {
@@ -271,7 +271,7 @@ func (cc *codecCtx) variantKeySpace(m *ir.Message, seg string) (childField *ir.F
 				continue
 			}
 			for _, cf := range c.Fields {
-				if seg == ir.JSONName(cf.Name) {
+				if seg == cf.JSON() {
 					return cf, "camel", true
 				}
 				if seg == cf.Name {
@@ -371,7 +371,7 @@ func (cc *codecCtx) deepContext(diff string) string {
 		var f *ir.Field
 		var fr string
 		for _, x := range cur.Fields {
-			if r, in := underKey(rest, ir.JSONName(x.Name)); in && (f == nil || len(x.Name) > len(f.Name)) {
+			if r, in := underKey(rest, x.JSON()); in && (f == nil || len(x.Name) > len(f.Name)) {
 				f, fr = x, r
 			}
 		}
@@ -381,7 +381,7 @@ func (cc *codecCtx) deepContext(diff string) string {
 		leaf = f
 		rest = fr
 		if obj, _ := node.(map[string]any); obj != nil {
-			node = obj[ir.JSONName(f.Name)]
+			node = obj[f.JSON()]
 		} else {
 			node = nil
 		}
@@ -484,7 +484,7 @@ func (cc *codecCtx) mappingCause(diff string) string {
 	case "container":
 		if m != nil {
 			for _, f := range m.Fields {
-				if ir.JSONName(f.Name) != seg {
+				if f.JSON() != seg {
 					continue
 				}
 				if f.Card == "map" && f.Kind == "message" {
@@ -555,7 +555,7 @@ func (cc *codecCtx) decodeErrorCause(class, key, realErr string) string {
 				if sp == "oneof" {
 					return "flatten_child_oneof_key"
 				}
-				if sp == "snake" && cf != nil && cf.Name != ir.JSONName(cf.Name) {
+				if sp == "snake" && cf != nil && cf.Name != cf.JSON() {
 					return "flatten_multiword_child_key"
 				}
 			}
@@ -563,7 +563,7 @@ func (cc *codecCtx) decodeErrorCause(class, key, realErr string) string {
 				if sp == "oneof" {
 					return "oneof_flatten_variant_oneof_key"
 				}
-				if sp == "snake" && cf != nil && cf.Name != ir.JSONName(cf.Name) {
+				if sp == "snake" && cf != nil && cf.Name != cf.JSON() {
 					return "oneof_flatten_multiword_variant_key"
 				}
 			}
